@@ -1273,6 +1273,11 @@ def m_frozenset(eng, args, kwargs, node, frame):
         k = fresh_bound("k")
         eng.assume(z3.ForAll([x], arr[x] == z3.Exists([k], z3.And(0 <= k, k < v.n, v.at(k) == x))))
         return VSet(arr=arr)
+    fname = node.func.id if isinstance(getattr(node, "func", None), ast.Name) else ""
+    if fname == "set" and not eng.spec and isinstance(v, VOpaque):
+        # set(<untracked iterable>): a fresh mutable set with unknown members (may raise like any call on an untracked value)
+        eng.opaque_call("set()", [], node, havoc_args=False)
+        return eng.alloc(VSet(arr=z3.Array(fresh_name("setof"), Val, z3.BoolSort())))
     return eng.opaque_call("set()", [], node, havoc_args=False)
 
 
